@@ -1,6 +1,9 @@
 package engine
 
 import (
+	"go/constant"
+	"os"
+	"go/types"
 	"fmt"
 	"go/token"
 	"sort"
@@ -85,6 +88,13 @@ func FactsFor(fn *ssa.Function) *FuncFacts {
 	if len(fn.Blocks) == 0 {
 		return ff
 	}
+	// pass 1: the function's own branch facts (complete before anything that may look back at fn)
+	type pending struct {
+		b *ssa.BasicBlock
+		k int
+		f Fact
+	}
+	var todo []pending
 	for _, b := range fn.Blocks {
 		if len(b.Instrs) == 0 {
 			continue
@@ -98,16 +108,201 @@ func FactsFor(fn *ssa.Function) *FuncFacts {
 			f.If = ifi
 			f.Succ = k
 			ff.edges = append(ff.edges, edgeFact{b, k, f})
-			// blocks reachable from entry without using edge (b,k)
 			reach := reachWithoutEdge(fn, b, k)
 			for _, blk := range fn.Blocks {
 				if !reach[blk] && reachableFromEntry(fn)[blk] {
 					ff.byBlk[blk] = append(ff.byBlk[blk], f)
 				}
 			}
+			todo = append(todo, pending{b, k, f})
+		}
+	}
+	// pass 2: what a predicate call's outcome implies
+	for _, t := range todo {
+		imp := impliedByPredicate(t.f, 0)
+		if len(imp) == 0 {
+			continue
+		}
+		for i := range imp {
+			imp[i].If, imp[i].Succ = t.f.If, t.k
+			ff.edges = append(ff.edges, edgeFact{t.b, t.k, imp[i]})
+		}
+		reach := reachWithoutEdge(fn, t.b, t.k)
+		for _, blk := range fn.Blocks {
+			if !reach[blk] && reachableFromEntry(fn)[blk] {
+				ff.byBlk[blk] = append(ff.byBlk[blk], imp...)
+			}
+		}
+	}
+	// pass 2b: a function with exactly one call site: its facts also hold with the parameters
+	// replaced by that call's arguments (a block extracted into a helper keeps speaking about
+	// the caller's objects)
+	if sub := soleCallSubst(fn); len(sub) > 0 {
+		for blk, fs := range ff.byBlk {
+			var extra []Fact
+			for _, f := range fs {
+				nl, nr := SubstTerm(f.L, sub), SubstTerm(f.R, sub)
+				if nl != f.L || nr != f.R {
+					extra = append(extra, Fact{Op: f.Op, L: nl, R: nr, If: f.If, Succ: f.Succ})
+				}
+			}
+			ff.byBlk[blk] = append(fs, extra...)
+		}
+		var extraEdges []edgeFact
+		for _, e := range ff.edges {
+			nl, nr := SubstTerm(e.fact.L, sub), SubstTerm(e.fact.R, sub)
+			if nl != e.fact.L || nr != e.fact.R {
+				extraEdges = append(extraEdges, edgeFact{e.from, e.succ, Fact{Op: e.fact.Op, L: nl, R: nr, If: e.fact.If, Succ: e.fact.Succ}})
+			}
+		}
+		ff.edges = append(ff.edges, extraEdges...)
+	}
+	// pass 3: facts that hold at every call site of fn hold throughout fn
+	if inh := inheritedFacts(fn); len(inh) > 0 {
+		for _, blk := range fn.Blocks {
+			if reachableFromEntry(fn)[blk] {
+				ff.byBlk[blk] = append(ff.byBlk[blk], inh...)
+			}
 		}
 	}
 	return ff
+}
+
+// theProgram is the loaded program (set by Load); facts use its call graph.
+var theProgram *Program
+
+var inheritBusy = map[*ssa.Function]bool{}
+
+// inheritedFacts: the facts common to all call sites of fn, when every caller of fn is known:
+// fn is a declared function or method (not a closure), it is never used as a value, and it has at
+// least one call site in the repository (static, or through an interface it implements).
+// This makes guard rules indifferent to a block having been extracted into a helper.
+func inheritedFacts(fn *ssa.Function) []Fact {
+	p := theProgram
+	if p == nil || fn.Parent() != nil || inheritBusy[fn] || p.addressTaken()[fn] {
+		return nil
+	}
+	switch fn.Name() {
+	case "Reconcile", "Handle", "Create", "Update", "Delete", "Generic", "main", "init":
+		return nil // entered by frameworks
+	}
+	sites := p.Callers(fn)
+	if len(sites) == 0 || len(inheritBusy) > 4 {
+		return nil
+	}
+	inheritBusy[fn] = true
+	defer delete(inheritBusy, fn)
+	var common map[string]Fact
+	for _, cs := range sites {
+		if cs.Kind == "closure" {
+			return nil
+		}
+		here := map[string]Fact{}
+		if os.Getenv("RCHECK_INH_DEBUG") != "" && strings.Contains(fn.Name(), os.Getenv("RCHECK_INH_DEBUG")) {
+			fmt.Printf("INH %s <- %s: %v\n", fn.Name(), cs.Caller.Name(), FactStrings(FactsAtInstr(cs.Instr)))
+		}
+		for _, f := range FactsAtInstr(cs.Instr) {
+			f.If, f.Succ = nil, 0
+			here[f.String()] = f
+		}
+		if common == nil {
+			common = here
+			continue
+		}
+		for k := range common {
+			if _, ok := here[k]; !ok {
+				delete(common, k)
+			}
+		}
+	}
+	var out []Fact
+	for _, f := range common {
+		out = append(out, f)
+	}
+	sort.Slice(out, func(i, j int) bool { return out[i].String() < out[j].String() })
+	return out
+}
+
+// impliedByPredicate: when f says that a call of a repository predicate returned true (false),
+// the facts common to all of the predicate's true (false) returns hold as well, with the
+// predicate's parameters replaced by the call's arguments. This makes guard rules indifferent to
+// a condition having been extracted into a boolean helper.
+func impliedByPredicate(f Fact, depth int) []Fact {
+	if depth > 1 || f.Op != "==" || f.R == nil || f.R.Op != "const" || (f.R.Name != "true" && f.R.Name != "false") {
+		return nil
+	}
+	want := f.R.Name == "true"
+	t := f.L
+	if t == nil || t.Op != "call" || t.Call == nil {
+		return nil
+	}
+	g := t.Call.Call.StaticCallee()
+	if g == nil || g.Blocks == nil || g.Pkg == nil || !strings.HasPrefix(g.Pkg.Pkg.Path(), ModPath) {
+		return nil
+	}
+	if g.Signature.Results().Len() != 1 || !isBoolType(g.Signature.Results().At(0).Type()) {
+		return nil
+	}
+	var common map[string]Fact
+	possible := false
+	for _, b := range g.Blocks {
+		for _, in := range b.Instrs {
+			ret, ok := in.(*ssa.Return)
+			if !ok || len(ret.Results) != 1 {
+				continue
+			}
+			for _, lf := range Leaves(ret.Results[0], ret.Block()) {
+				set := map[string]Fact{}
+				add := func(x Fact) { x.If, x.Succ = nil, 0; set[x.String()] = x }
+				if k, isC := lf.V.(*ssa.Const); isC {
+					if (constText(k) == "true") != want {
+						continue
+					}
+				} else {
+					lfact := FactOf(lf.V, want)
+					add(lfact)
+					for _, y := range impliedByPredicate(lfact, depth+1) {
+						add(y)
+					}
+				}
+				possible = true
+				for _, x := range lf.Facts {
+					add(x)
+				}
+				if common == nil {
+					common = set
+					continue
+				}
+				for k := range common {
+					if _, ok := set[k]; !ok {
+						delete(common, k)
+					}
+				}
+			}
+		}
+	}
+	if !possible || len(common) == 0 {
+		return nil
+	}
+	// parameters → arguments
+	sub := map[ssa.Value]*Term{}
+	args := t.Call.Call.Args
+	for i, pr := range g.Params {
+		if i < len(args) {
+			sub[pr] = TermOf(args[i])
+		}
+	}
+	var out []Fact
+	for _, x := range common {
+		out = append(out, Fact{Op: x.Op, L: SubstTerm(x.L, sub), R: SubstTerm(x.R, sub)})
+	}
+	sort.Slice(out, func(i, j int) bool { return out[i].String() < out[j].String() })
+	return out
+}
+
+func isBoolType(t types.Type) bool {
+	b, ok := t.Underlying().(*types.Basic)
+	return ok && b.Kind() == types.Bool
 }
 
 var entryReachCache = map[*ssa.Function]map[*ssa.BasicBlock]bool{}
@@ -301,6 +496,10 @@ func CanReach(from Point, target func(ssa.Instruction) bool, o ReachOpts) (bool,
 
 // EdgeFactMatches reports whether the branch edge (from,k) establishes a fact matching m.
 func EdgeFactMatches(from *ssa.BasicBlock, k int, m FactM) bool {
+	return edgeFactMatches(from, k, m, 0)
+}
+
+func edgeFactMatches(from *ssa.BasicBlock, k int, m FactM, depth int) bool {
 	if len(from.Instrs) == 0 || len(from.Succs) != 2 {
 		return false
 	}
@@ -308,7 +507,92 @@ func EdgeFactMatches(from *ssa.BasicBlock, k int, m FactM) bool {
 	if !ok {
 		return false
 	}
-	return m(FactOf(ifi.Cond, k == 0))
+	f := FactOf(ifi.Cond, k == 0)
+	if m(f) {
+		return true
+	}
+	if depth > 1 {
+		return false
+	}
+	for _, x := range impliedByPredicate(f, 0) {
+		if m(x) {
+			return true
+		}
+	}
+	return predicateOnlyThrough(f, m, depth)
+}
+
+// predicateOnlyThrough: f says a repository predicate returned true (false); report whether the
+// predicate can produce that outcome only by passing an edge whose fact matches m (or by the
+// outcome being itself a condition matching m). A guard that was extracted into a boolean helper
+// is then still recognised as that guard.
+func predicateOnlyThrough(f Fact, m FactM, depth int) bool {
+	if f.Op != "==" || f.R == nil || f.R.Op != "const" || (f.R.Name != "true" && f.R.Name != "false") {
+		return false
+	}
+	want := f.R.Name == "true"
+	if f.L == nil || f.L.Op != "call" || f.L.Call == nil {
+		return false
+	}
+	g := f.L.Call.Call.StaticCallee()
+	if g == nil || g.Blocks == nil || g.Pkg == nil || !strings.HasPrefix(g.Pkg.Pkg.Path(), ModPath) {
+		return false
+	}
+	if g.Signature.Results().Len() != 1 || !isBoolType(g.Signature.Results().At(0).Type()) {
+		return false
+	}
+	cut := func(b *ssa.BasicBlock, k int) bool { return edgeFactMatches(b, k, m, depth+1) }
+	any := false
+	var check func(v ssa.Value, at ssa.Instruction, seen map[*ssa.Phi]bool) bool
+	check = func(v ssa.Value, at ssa.Instruction, seen map[*ssa.Phi]bool) bool {
+		switch x := v.(type) {
+		case *ssa.Const:
+			if (constText(x) == "true") != want {
+				return true // this definition cannot yield the outcome
+			}
+		case *ssa.Phi:
+			if seen[x] {
+				return true
+			}
+			seen[x] = true
+			for i, e := range x.Edges {
+				pred := x.Block().Preds[i]
+				last := pred.Instrs[len(pred.Instrs)-1]
+				// the edge pred -> phi block itself may carry the guard
+				for k2, s := range pred.Succs {
+					if s == x.Block() && cut(pred, k2) {
+						last = nil
+					}
+				}
+				if last == nil {
+					continue
+				}
+				if !check(e, last, seen) {
+					return false
+				}
+			}
+			return true
+		default:
+			if m(FactOf(v, want)) {
+				any = true
+				return true
+			}
+		}
+		any = true
+		return !CanReachFeasible(Entry(g), func(in ssa.Instruction) bool { return in == at }, ReachOpts{CutEdge: cut})
+	}
+	for _, b := range g.Blocks {
+		for _, in := range b.Instrs {
+			ret, ok := in.(*ssa.Return)
+			if !ok || len(ret.Results) != 1 {
+				continue
+			}
+			if !check(ret.Results[0], ret, map[*ssa.Phi]bool{}) {
+				return false
+			}
+		}
+	}
+	return any
 }
 
 // IsReturn reports whether in is a normal return.
@@ -736,4 +1020,46 @@ func CanReachFeasible(from Point, target func(ssa.Instruction) bool, o ReachOpts
 	exceeded := false
 	r := WalkEnv(from, nil, target, WalkOpts{ReachOpts: o, PruneContradictions: true, Exceeded: &exceeded, MaxStates: 100000})
 	return len(r) > 0 || exceeded
+}
+
+// BoolLeaves is Leaves for a boolean value with non-constant definitions split into their two
+// outcomes: a definition `e` that is not a constant yields the leaf true under the facts that e
+// being true implies, and the leaf false under the facts that e being false implies. Rules of the
+// form "true is returned only when ..." then do not depend on the result being written as a
+// literal (`return x == END, nil` ≡ `if x == END { return true, nil }; return false, nil`).
+func BoolLeaves(v ssa.Value, at *ssa.BasicBlock) []Leaf {
+	var out []Leaf
+	for _, lf := range Leaves(v, at) {
+		if _, isC := lf.V.(*ssa.Const); isC || !isBoolType(lf.V.Type()) {
+			out = append(out, lf)
+			continue
+		}
+		for _, want := range []bool{true, false} {
+			f := FactOf(lf.V, want)
+			fs := append(append([]Fact{}, lf.Facts...), f)
+			fs = append(fs, impliedByPredicate(f, 0)...)
+			out = append(out, Leaf{V: ssa.NewConst(constant.MakeBool(want), types.Typ[types.Bool]), Facts: fs})
+		}
+	}
+	return out
+}
+
+// soleCallSubst maps the parameters of fn to the argument terms of its only call site (nil if fn
+// has none or several, is a closure, is used as a value or is entered by a framework).
+func soleCallSubst(fn *ssa.Function) map[ssa.Value]*Term {
+	p := theProgram
+	if p == nil || fn.Parent() != nil || p.addressTaken()[fn] {
+		return nil
+	}
+	sites := p.Callers(fn)
+	if len(sites) != 1 || sites[0].Kind != "static" {
+		return nil
+	}
+	sub := map[ssa.Value]*Term{}
+	for i, pr := range fn.Params {
+		if i < len(sites[0].Args) {
+			sub[pr] = TermOf(sites[0].Args[i])
+		}
+	}
+	return sub
 }
